@@ -137,7 +137,7 @@ theorem applyOp_wf (op : Op) (vs : List Val) (hvs : ∀ v ∈ vs, v.WF) : (apply
   split
   all_goals first
     | exact foldVals_wf _ (fun a b _ => bvBin_wf _ a b) _ hvs
-    | exact foldVals_wf _ (fun a b _ => boolBin_wf _ a b) _ hvs
+    | exact foldl_wf _ (fun a b _ => boolBin_wf _ a b) _ _ trivial
     | exact foldVals_wf _ (fun a b ha => valConcat_wf a b ha) _ hvs
     | exact bvBin_wf _ _ _
     | exact bvUn_wf _ _
